@@ -378,6 +378,8 @@ def coq_explain(run, term, comp, tag):
 
 def report(run, batch, prop, theorem, mism, rows, limit=4):
     """turn (index, code) pairs into VIOLATION lines with replay files"""
+    # concrete failing inputs (verdict 2) first
+    mism = sorted(mism, key=lambda m: (m[1] % 10 != 2, m[0]))
     for k, (idx, code) in enumerate(mism[:limit]):
         job, t, term, o = rows[idx]
         comp, v = code // 10, code % 10
